@@ -389,7 +389,7 @@ top:
 			}
 		}
 		ansi := slip.CurrentPackage.JustGet("*print-ansi*") != nil
-		right := int(slip.CurrentPackage.JustGet("*print-right-margin*").(slip.Fixnum))
+		right := slip.RightMarginValue(slip.CurrentPackage.JustGet("*print-right-margin*"), slip.DefaultRightMargin)
 		_, _ = w.Write(obj.Describe(nil, 0, right, ansi))
 		result = slip.Novalue
 	case ":which-operations":
